@@ -1,6 +1,8 @@
 package exporter
 
 import (
+	"sort"
+
 	proto "github.com/anz-bank/sysl/pkg/sysl"
 	yaml "github.com/ghodss/yaml"
 	"github.com/go-openapi/spec"
@@ -46,8 +48,14 @@ func (s *SwaggerExporter) GenerateSwagger() error {
 
 	// parse endpoints
 	endpointExporter := makeEndpointExporter(typeExporter, s.log)
-	for endpointName, endpoint := range s.app.Endpoints {
-		err := endpointExporter.populateEndpoint(endpointName, endpoint, s.buildSwagger.Paths.Paths)
+	// endpoints that share a path and method overwrite each other: visit them in name order
+	endpointNames := make([]string, 0, len(s.app.Endpoints))
+	for endpointName := range s.app.Endpoints {
+		endpointNames = append(endpointNames, endpointName)
+	}
+	sort.Strings(endpointNames)
+	for _, endpointName := range endpointNames {
+		err := endpointExporter.populateEndpoint(endpointName, s.app.Endpoints[endpointName], s.buildSwagger.Paths.Paths)
 		if err != nil {
 			return err
 		}
